@@ -5,12 +5,12 @@ SNAP="/tmp/verif-snap-$$"; rm -rf "$SNAP"; mkdir -p "$SNAP"
 rsync -a --exclude target --exclude .git --exclude replays /verif/ "$SNAP/"
 trap 'rm -rf "$SNAP"' EXIT
 DIR="${1:-/verif/sensitivity}"
-OUT="$DIR/results.txt"
+OUT="${OUT:-$DIR/results.txt}"
 : > "$OUT"
 for d in "$DIR"/*.diff; do
   name="$(basename "$d" .diff)"
   echo "== $name" | tee -a "$OUT"
-  "$SNAP/tools/run_mutant.sh" "$d" C01 C02 C05 C06 C17 C18 C20 2>&1 | cut -c1-260 | tee -a "$OUT"
+  "$SNAP/tools/run_mutant.sh" "$d" ${CHECKS:-C01 C02 C05 C06 C17 C18 C20} 2>&1 | cut -c1-260 | tee -a "$OUT"
 done
 "$SNAP/tools/run_mutant.sh" --clean
 echo done >> "$OUT"
